@@ -23,6 +23,20 @@ if ALT:
 HOOK_CFG = "mimium_verif"
 NPROC = os.cpu_count() or 4
 
+
+def coq_jobs():
+    """parallel coqc jobs: one per core but never more than the available memory allows (~0.8 GB per coqc here)"""
+    try:
+        avail_kb = int([l for l in open("/proc/meminfo") if l.startswith("MemAvailable")][0].split()[1])
+        cg = "/sys/fs/cgroup/memory.max"
+        if os.path.exists(cg):
+            v = open(cg).read().strip()
+            if v.isdigit():
+                avail_kb = min(avail_kb, int(v) // 1024)
+        return max(1, min(NPROC, avail_kb // (900 * 1024)))
+    except Exception:
+        return min(NPROC, 4)
+
 OFFLINE_ENV = {"CARGO_NET_OFFLINE": "true", "GOPROXY": "off", "PIP_NO_INDEX": "1"}
 
 FORBIDDEN = [r"\bAdmitted\b", r"\badmit\b", r"\bAxiom\b", r"\bAxioms\b", r"\bParameter\b", r"\bParameters\b",
@@ -229,7 +243,7 @@ def coq_make(targets, timeout=1500):
         return 0, "up to date", 0.0
     with flock("coq"):
         coq_prepare()
-        rc, out, dt = sh(["make", "-j%d" % NPROC, "-k"] + list(targets), cwd=COQ, timeout=timeout)
+        rc, out, dt = sh(["make", "-j%d" % coq_jobs(), "-k"] + list(targets), cwd=COQ, timeout=timeout)
     return rc, out, dt
 
 
